@@ -14,9 +14,10 @@ token list is `treeD d` for a well-formed `d` with exactly these tokens, provide
  * on the result tree, decidable (`Gram.repL .nonMath es`):
    – no made-up arguments (the certificate reasons `made-up-argument`,
      `bare-command-as-argument`);
-   – a command with a fixed signature has its arguments as declared: at most `optional`
-     bracket groups, then exactly `required` brace groups (this excludes `\def` at the end of
-     input, and `\section{a}[b]` – the continuation argument the grammar does not describe);
+   – a command with a fixed signature has exactly `required` brace groups (this only excludes a
+     command cut off by the end of input, `\def` at the end; the continuation argument
+     `\section{a}[b]` – an optional argument read in the second pass of `read_args` – is part of
+     the grammar, `Gram.runOK`);
  * on the tokens: no backslash at the very end (`NoTrailingEscape`); the argument after
    `\begin` / `\end` is `{`, one text token, `}` (`EnvNamesSimple`; reason
    `env-name-several-tokens`); the token after a backslash is its own `strip()`, and `\end{name}`
@@ -210,5 +211,33 @@ example : WFD Tables.skipEnvNames exEqn = true := by decide
 /-- all side conditions of `parse_sound_of_checks` hold for it (the tree is representable) -/
 example : repL .nonMath (treeD exEqn) = true ∧ envNamesShapeB (toksD exEqn) = true ∧
     noTrailingEscapeB (toksD exEqn) = true := by decide +kernel
+
+/-! ### A continuation argument of a fixed signature: `\section{a}[b][c]` -/
+
+/-- `\section{a}[b][c]`: `[b]` is the optional argument of `\section` (signature `(1, 1)`), read
+in the second pass of `read_args` directly behind the brace group; `[c]` stays text. -/
+def exSection : Doc :=
+  [.cmd (tk [92] 0 .Escape) (tk [115, 101, 99, 116, 105, 111, 110] 1 .CommandName) []
+     [.mk none (tk [123] 8 .GroupBegin) [.leaf (tk [97] 9 .Text)] (tk [125] 10 .GroupEnd)]
+     [.mk none (tk [91] 11 .BracketBegin) [.leaf (tk [98] 12 .Text)] (tk [93] 13 .BracketEnd)] [],
+   .leaf (tk [91] 14 .BracketBegin), .leaf (tk [99] 15 .Text), .leaf (tk [93] 16 .BracketEnd)]
+
+def srcSection : Str := [92, 115, 101, 99, 116, 105, 111, 110, 123, 97, 125, 91, 98, 93, 91, 99, 93]
+
+example : tokenize srcSection = some (toksD exSection) := by rfl
+example : WFD Tables.skipEnvNames exSection = true := by decide
+example : parse false [] srcSection =
+    .ok [.cmd [115, 101, 99, 116, 105, 111, 110]
+          [.group .brace [.text [97] 9] 8, .group .bracket [.text [98] 12] 11] [] 0,
+         .text [91] 14, .text [99] 15, .text [93] 16] :=
+  parse_complete false [] srcSection exSection (by rfl) (by decide)
+example : repL .nonMath (treeD exSection) = true ∧ envNamesShapeB (toksD exSection) = true ∧
+    noTrailingEscapeB (toksD exSection) = true := by decide +kernel
+/-- with a spacer in front the bracket is not an argument -/
+example : WFD Tables.skipEnvNames
+  [.cmd (tk [92] 0 .Escape) (tk [115, 101, 99, 116, 105, 111, 110] 1 .CommandName) []
+     [.mk none (tk [123] 8 .GroupBegin) [.leaf (tk [97] 9 .Text)] (tk [125] 10 .GroupEnd)]
+     [.mk (some (tk [32] 11 .MergedSpacer)) (tk [91] 12 .BracketBegin) [.leaf (tk [98] 13 .Text)]
+       (tk [93] 14 .BracketEnd)] []] = false := by decide
 
 end TexSoup.C02
